@@ -65,4 +65,15 @@ CHECKS["C03"] = {
     "technique": "Lean 4 proof (first-maximum invariants of two folds, C11 enumeration order) + differential correspondence + CLI report-subset comparison",
 }
 
+CHECKS["C15"] = {
+    "text": "Lean theorems: the (haplotype, SNV) sub-step table contains every pair exactly once for every ploidy and number of SNVs and any shuffle "
+            "keeps that (with the machine-checked counter-example for the former int8 table); for every sequence of draws random_breaks yields "
+            "breaks+1 contiguous non-empty intervals from 0 to n; a site is fixed iff some homozygosity probability reaches the threshold; template "
+            "re-insertion puts every fixed allele and every sampled column in the right place. Model tied to compound_step (recorder under py_func and a "
+            "jitted forcing read set up to 300 SNVs), random_breaks (forced draws), _homozygosity_probabilities and DenovoMCMC.fit (marker trace).",
+    "design_ref": "DESIGN.md section 4, C15",
+    "note": _NOTE + "np.random.shuffle is trusted to permute rows; thresholds within 1e-9 of a probability are excluded from comparison.",
+    "technique": "Lean 4 proof (list permutation / nodup reasoning, sorted-insert invariants, structural induction on the fixing pattern) + differential correspondence",
+}
+
 NOT_APPLICABLE = {}
